@@ -76,6 +76,14 @@ def mc_plan(tier):
                          dict(Kind=kind, Unify=True, Reserved=0, Cap=127, Backend="file", ByteSizes=[0, 16, 40], TypeSet=[(8, 8)],
                               AlignedSet=[], MinSegSet=[8, 24], IncSet=[3], Prefix=PREFIXES[pname], MaxLen=4 + deep,
                               WithReopen=True, Emit=True), "emit_reo", "unify"))
+    # a second arena value alive across truncate (both layouts, Vec and file): made, asked, allocated through, dropped
+    for layout, base in [("plain", dict(Unify=False, Reserved=0, Cap=96)), ("unify", dict(Unify=True, Reserved=0, Cap=127))]:
+        for backend in ["vec", "file"]:
+            if backend == "file" and layout == "plain":
+                continue
+            plan.append(("clone_%s_%s" % (layout, backend),
+                         dict(base, Kind="none", Backend=backend, ByteSizes=[0, 16, 100], TypeSet=[], AlignedSet=[], MinSegSet=[],
+                              IncSet=[], TruncSet=[64, 300], WithClone=True, MaxLen=4 + deep, Emit=True), "emit_clone", layout))
     return plan
 
 
@@ -401,7 +409,23 @@ def suite_ro_mutators(tier, seed):
     return drivers
 
 
+def suite_clone(mc_results, tier, seed):
+    """A second arena value (Clone) alive across truncate / clear / allocations: every history of the model with the clone
+    calls in the menu (made, asked for capacity()/remaining()/allocated(), allocated through, dropped)."""
+    drivers = []
+    for r in mc_results:
+        if r["mode"] != "emit_clone" or "drivers" not in r:
+            continue
+        backends = ["file"] if r["params"]["Backend"] == "file" else ["vec", "anon"]
+        for i, ops in enumerate(r["drivers"]):
+            be = backends[i % len(backends)]
+            drivers.append({"id": "mc:%s:%d" % (r["name"], i),
+                            "cfg": cfg_for(r["layout"], r["params"]["Kind"], be, cap=r["params"]["Cap"]), "ops": ops})
+    return drivers
+
+
 SUITES = {
+    "clone": lambda mc, tier, seed: suite_clone(mc, tier, seed),
     "reopen": lambda mc, tier, seed: suite_reopen(tier, seed, mc),
     "ro": lambda mc, tier, seed: suite_ro_mutators(tier, seed),
     "core": lambda mc, tier, seed: suite_core(mc, tier, seed),
